@@ -290,8 +290,19 @@ def search(ctx, deep):
                   samples=[obs[0]['case'], {'case': obs[len(obs) // 2]['case'], 'result': obs[len(obs) // 2].get('result')}])
 
 
+_replayed = {}
+
 def replay(ctx, data):
-    o = vlib.run_impl('c32_driver.py', {'cases': [data['case']]}, timeout=300)[0]
+    k = json.dumps(data['case'], sort_keys=True)
+    if k not in _replayed:
+        # the first call runs every stored replay of the known findings in one interpreter
+        batch = [data['case']]
+        for f in vlib.known_for(ID):
+            c = (f.get('replay') or {}).get('case')
+            if c is not None and json.dumps(c, sort_keys=True) != k: batch.append(c)
+        for c, o in zip(batch, vlib.run_impl('c32_driver.py', {'cases': batch}, timeout=300)):
+            _replayed[json.dumps(c, sort_keys=True)] = o
+    o = _replayed[k]
     if o['setup'] != 'ok': return Failure('scenario-not-built', o['setup'], data)
     j = judge(o)
     if j is None: return None
